@@ -9,6 +9,8 @@ TRIAGE = {
         "Sender::send fails only when the receiving side of the connection is gone, i.e. the client has already disconnected; no answer is owed then",
     LSP + "::handle_request|call:core::result::Result::unwrap#1":
         "sending the MethodNotFound error response: as send_response, Sender::send fails only after the client hung up",
+    LSP + "::send_invalid_params|call:core::result::Result::unwrap#1":
+        "as send_response: Sender::send fails only after the client hung up",
     LSP + "::send_notification|call:core::result::Result::unwrap#1":
         "as send_response: only fails after the client hung up",
     "ironplcc::lsp_project::map_label|assert:Overflow:Add#1": "line/column counters bounded by the document length",
@@ -42,12 +44,22 @@ def rule_reply(ctx, rep):
         return
     b = hb[0]
     SEND = LSP + "::send_response"
+    # helper methods that send exactly one response: they build a Message::Response and hand it to Sender::send once
+    responders = set()
+    for hb2 in ctx.prog.bodies.values():
+        n2 = norm(hb2.id)
+        if not n2.startswith(LSP + "::") or n2 == LSP + "::handle_request":
+            continue
+        builds = [1 for _, _, s2 in hb2.all_stmts() if s2[0] == "=" and s2[2][0] == "agg" and s2[2][1].get("adt") == "lsp_server::msg::Message" and s2[2][1].get("variant") == "Response"]
+        sends = [c2 for c2 in hb2.calls() if c2.callee == "crossbeam_channel::channel::Sender::send"]
+        if len(builds) == 1 and len(sends) == 1:
+            responders.add(n2)
 
     def step(st, bb):
         dec, cnt = st
         c = b.call_at(bb)
         if c is not None:
-            direct = c.callee == SEND
+            direct = c.callee in responders
             raw = c.callee == "crossbeam_channel::channel::Sender::send"
             if direct or raw:
                 cnt = min(cnt + 1, 2)
@@ -60,8 +72,15 @@ def rule_reply(ctx, rep):
             lab = cast_label(si["subject"][1])
             if lab:
                 arms = si["edges"].get(succ)
-                if arms:
+                if arms and si.get("adt") == "core::result::Result":
+                    # the discriminant of one cast result cannot change along a path: later re-tests (drop elaboration,
+                    # nested patterns) that contradict the first outcome are infeasible edges
+                    prev = [a for (l, a) in dec if l == lab]
+                    if prev and prev[0] != arms[0]:
+                        return None
                     dec = dec | frozenset([(lab, arms[0])])
+                elif arms:
+                    dec = dec | frozenset([(lab + "/" + str(si.get("adt", "")).split("::")[-1], arms[0])])
         return (dec, cnt)
 
     rets = explore(b, (frozenset(), 0), step, edge)
@@ -71,7 +90,7 @@ def rule_reply(ctx, rep):
     # the response id must be the request's id
     id_ok = True
     for c in b.calls():
-        if c.callee == SEND:
+        if c.callee in responders:
             p = op_place(c.args[1])
             root = b.root(p) if p else None
             d = b.single_def(root[0]) if root else None
